@@ -166,6 +166,16 @@ CHECKS = {
         design_ref='DESIGN.md 5 / C17',
         technique='Coq proof (fake_path; corollaries of C08/C10) + metamorphic exploration with independent tools (msgcat, msgfmt, dpkg-deb)',
         note=NOTE_COMMON + ' Unpacking, os.walk order and temporary-directory removal are runtime behaviour, explored only.'),
+    'C10': dict(
+        category='proof',
+        text='Partial (stated as C10_load_render_partial). Proved in Coq for ALL inputs: polib_unescape returns exactly the byte string for every spelling of it in the C escape '
+             'family (literal, \\n-style, octal, hex of the encoded bytes) without warning; the 14-state PO state machine on the token list of any rendering of a catalog rebuilds the '
+             'catalog (strings, flags in order with duplicates, obsolete, previous-msgid, references, extracted comments on the right entry; blank and #~| lines anywhere; nplurals <= 10); '
+             'per-line-kind lexer round trips. Not proved: the assembly lex_lines(render c) = tokens(c) (the named hypothesis), Codecs.open / detect_encoding composition (modelled, tied by '
+             'correspondence). Tied by load(render(c)) == c over 42 ASCII-compatible codecs with an independent renderer.',
+        design_ref='DESIGN.md 5 / C10; notes/C10.md',
+        technique='Coq proof (unescape round trip, state-machine round trip, per-line lexer lemmas) + extracted-model correspondence + render/load oracle',
+        note=NOTE_COMMON + ' polib (third party) is modelled, not verified. Known findings D9, D14, D22, D23.'),
 }
 
 NA_REASON = 'check not built yet (work in progress; see DESIGN.md section 8 for build order)'
